@@ -643,6 +643,14 @@ func genConc(prop string, seed uint64, tier string) *ConcScenario {
 	if (prop == "C02" || prop == "C03" || prop == "C04") && g.r.Bool(0.03) {
 		g.storm(sc)
 	}
+	if (prop == "C03" || prop == "C04") && !cacheFam && g.r.Bool(0.02) {
+		// (wave 9, `C04-q`) a caller frozen between reading the table pointer and
+		// locking its bucket while the table shrinks and grows back
+		sc.Phases = sc.Phases[:1]
+		ph := &sc.Phases[0]
+		ph.Tasks, ph.Delays, ph.Stall, ph.Optional = nil, nil, nil, nil
+		g.regrowRacers(sc, 0, true)
+	}
 	return sc
 }
 
@@ -688,6 +696,54 @@ func (g *genCtx) storm(sc *ConcScenario) {
 	sc.Strategy = simrt.StrategyConfig{Kind: "rrq"}
 }
 
+// regrowRacers replaces the first phase by get-or-create racers on one key
+// while another task empties the table (it shrinks) and fills it again (it
+// grows back to its old length). With follow (C03/C04) every racer looks the
+// key up afterwards, so that a store that went into a retired table shows in
+// the history.
+func (g *genCtx) regrowRacers(sc *ConcScenario, key int, follow bool) {
+	ph := &sc.Phases[0]
+	// racers while the table shrinks and grows back to its old length
+	// (a caller frozen between reading the table pointer and locking its
+	// bucket must still notice that the table was replaced)
+	per := 3
+	if sc.Kind != "map" {
+		per = 5
+	}
+	sc.MinLen = 1 + g.r.Intn(2)
+	sc.UsePre, sc.Presize = false, 0
+	n := int(32*float64(per)*0.75) + 6 + g.r.Intn(10)
+	sc.Prefill, sc.PrefillKeep = n, -1
+	var su []Op
+	for _, op := range sc.Setup {
+		if op.Key != key {
+			su = append(su, op)
+		}
+	}
+	sc.Setup = su
+	nr := 2 + g.r.Intn(2)
+	slow := g.r.Bool(0.5)
+	for i := 0; i < nr; i++ {
+		if g.r.Bool(0.5) && !(slow && i == 0) {
+			ph.Tasks = append(ph.Tasks, []Op{{K: MLoadOrStore, Key: key, Val: g.val()}})
+		} else {
+			// (in the slow variant the first racer sits inside its function,
+			// holding the bucket, while the table is emptied and shrunk)
+			ph.Tasks = append(ph.Tasks, []Op{{K: MLoadOrCompute, Key: key, Val: g.val(), Slow: slow && i == 0}})
+		}
+	}
+	if follow {
+		for i := range ph.Tasks {
+			ph.Tasks[i] = append(ph.Tasks[i], Op{K: MLoad, Key: key})
+		}
+	}
+	ph.Tasks = append(ph.Tasks, []Op{{K: XBulkDelete, Key: prefillBase, N: n}, {K: XBulkInsert, Key: prefillBase, Val: prefillVal, N: n}})
+	if !slow {
+		ph.Stall = &StallCfg{Task: g.r.Intn(nr), AtStep: 2 + g.r.Intn(6), Resume: true}
+	}
+	ph.Delays = nil
+}
+
 // c05Workload replaces the first phase by racers or an increment chain.
 func (g *genCtx) c05Workload(sc *ConcScenario, hot int) {
 	cacheFam := sc.Family == "cache"
@@ -697,40 +753,7 @@ func (g *genCtx) c05Workload(sc *ConcScenario, hot int) {
 	filler := 50
 	wl := g.r.Intn(3)
 	if !cacheFam && g.r.Bool(0.12) {
-		// racers while the table shrinks and grows back to its old length
-		// (a caller frozen between reading the table pointer and locking its
-		// bucket must still notice that the table was replaced)
-		per := 3
-		if sc.Kind != "map" {
-			per = 5
-		}
-		sc.MinLen = 1 + g.r.Intn(2)
-		sc.UsePre, sc.Presize = false, 0
-		n := int(32*float64(per)*0.75) + 6 + g.r.Intn(10)
-		sc.Prefill, sc.PrefillKeep = n, -1
-		var su []Op
-		for _, op := range sc.Setup {
-			if op.Key != key {
-				su = append(su, op)
-			}
-		}
-		sc.Setup = su
-		nr := 2 + g.r.Intn(2)
-		slow := g.r.Bool(0.5)
-		for i := 0; i < nr; i++ {
-			if g.r.Bool(0.5) && !(slow && i == 0) {
-				ph.Tasks = append(ph.Tasks, []Op{{K: MLoadOrStore, Key: key, Val: g.val()}})
-			} else {
-				// (in the slow variant the first racer sits inside its function,
-				// holding the bucket, while the table is emptied and shrunk)
-				ph.Tasks = append(ph.Tasks, []Op{{K: MLoadOrCompute, Key: key, Val: g.val(), Slow: slow && i == 0}})
-			}
-		}
-		ph.Tasks = append(ph.Tasks, []Op{{K: XBulkDelete, Key: prefillBase, N: n}, {K: XBulkInsert, Key: prefillBase, Val: prefillVal, N: n}})
-		if !slow {
-			ph.Stall = &StallCfg{Task: g.r.Intn(nr), AtStep: 2 + g.r.Intn(6), Resume: true}
-		}
-		ph.Delays = nil
+		g.regrowRacers(sc, key, false)
 		return
 	}
 	if wl == 2 {
